@@ -289,10 +289,18 @@ def check_nonint(cx, chk):
         chk.anchor_missing("C19.nonint", "ParseGlobal::new")
     else:
         b = cx.body(rt, g[0])
-        ds = b.defs.get(0, [])
-        e = b.expr_rv(ds[0][3]) if len(ds) == 1 and ds[0][2] == "rv" else None
-        tr = dict(e[3]).get("tracer") if e and e[0] == "agg" else None
-        if tr is None or tr[0] != "call" or last(tr[1]) != "new" or tr[2]:
+        # read off the summary with private helpers of the runtime inlined (a delegating constructor is still this constructor)
+        from .. import sem as _sem
+        e = tr = None
+        try:
+            gsm = _sem.Sem(cx, rt, inline=lambda p_: p_ in rt.fns and "mir" in rt.fns[p_] and "{closure" not in p_ and not rt.fns[p_].get("unsafe")
+                           and "Tracer" not in p_).summarize(g[0])
+        except _sem.SemLimit:
+            gsm = None
+        if gsm is not None and len(gsm.returns) == 1 and gsm.complete:
+            e = gsm.returns[0].ret
+            tr = dict(e[3]).get("tracer") if e is not None and e[0] == "agg" else None
+        if tr is None or tr[0] != "call" or last(tr[1]) != "new" or tr[2] or "Tracer" not in tr[1]:
             chk.violation("C19.nonint", "ParseGlobal::new tracer", "tracer is not built by TT::new(): %s" % (mir.show(e) if e else "?"), cx.site(b))
         else:
             chk.ok("C19.nonint", "ParseGlobal::new", {"tracer": mir.show(tr)})
